@@ -1864,3 +1864,113 @@ def anchor_set(prog: Program) -> RuleResult:
 
 
 RULES["ANCHOR-SET"] = anchor_set
+
+
+# ---------------------------------------------------------------------------
+# DRAW-ANCHOR-SIDES
+
+
+def draw_anchor_sides(prog: Program) -> RuleResult:
+    res = RuleResult(
+        "DRAW-ANCHOR-SIDES",
+        "the drawing code looks an anchor up where the layout put it: the layout of child species k (bound at the "
+        "call site from `layout[children[k]]`) is indexed only with the gene stored on side k of the branch "
+        "(`branch.left` for k = 0, `branch.right` for k = 1) and never with a gene that is None on that path; the "
+        "foreign end of a transfer is looked up in the layout of the species that very gene is mapped to; an anchor "
+        "of the species being drawn is read only after a membership test.  With LAYOUT-SIDES, LOSS-WALK and "
+        "ANCHOR-SET this closes `every anchor referenced by a drawn branch exists`",
+    )
+    mod = prog.module(TIKZ)
+    fn = prog.func(TIKZ, "_tikz_draw_branches")
+    driver = prog.func(TIKZ, "render")
+    params = func_params(fn)
+    # sides of the layout parameters, from the call site
+    calls = [c for c in calls_in(driver, nested=False) if (dotted(c.func) or "").endswith("_tikz_draw_branches")]
+    if len(calls) != 1:
+        raise AnalysisError("render: call of _tikz_draw_branches not found")
+    call = calls[0]
+    child_vars: List[str] = []
+    for st in walk_no_nested(driver):
+        if isinstance(st, ast.Assign) and isinstance(st.targets[0], ast.Tuple) and isinstance(st.value, ast.Attribute) and st.value.attr == "children":
+            child_vars = [dotted(e) for e in st.targets[0].elts]
+    side_of_param: Dict[str, int] = {}
+    own_param = None
+    all_param = None
+    for i, arg in enumerate(call.args):
+        if not isinstance(arg, ast.Name) or i >= len(params):
+            continue
+        defs = [a for a in walk_no_nested(driver) if isinstance(a, ast.Assign) and any(isinstance(t, ast.Name) and t.id == arg.id for t in a.targets)]
+        for d in defs:
+            v = d.value
+            if isinstance(v, ast.Subscript) and dotted(v.slice) in child_vars:
+                side_of_param[params[i]] = child_vars.index(dotted(v.slice))
+                all_name = dotted(v.value)
+            elif isinstance(v, ast.Subscript) and isinstance(v.slice, ast.Name) and own_param is None:
+                own_param = params[i]
+    if set(side_of_param.values()) != {0, 1}:
+        raise AnalysisError("render: the two child layouts passed to _tikz_draw_branches are not `layout[children[k]]`")
+    for i, arg in enumerate(call.args):
+        if isinstance(arg, ast.Name) and i < len(params) and params[i] not in side_of_param and params[i] != own_param:
+            if any(isinstance(d.value, ast.Subscript) and dotted(d.value.value) == arg.id for d in walk_no_nested(driver) if isinstance(d, ast.Assign)):
+                all_param = params[i]
+    # sides of the gene locals
+    gene_side: Dict[str, int] = {}
+    for st in walk_no_nested(fn):
+        if isinstance(st, ast.Assign) and len(st.targets) == 1 and isinstance(st.targets[0], ast.Name) and isinstance(st.value, ast.Attribute) and st.value.attr in ("left", "right"):
+            gene_side[st.targets[0].id] = 0 if st.value.attr == "left" else 1
+    mapping_params = [p for p in params if any(
+        isinstance(n, ast.Subscript) and dotted(n.value) == p and dotted(n.slice) in gene_side for n in walk_no_nested(fn))]
+    n = 0
+    for node in walk_no_nested(fn):
+        if not (isinstance(node, ast.Subscript) and isinstance(node.value, ast.Attribute) and node.value.attr == "anchors" and isinstance(node.ctx, ast.Load)):
+            continue
+        holder = node.value.value
+        key = dotted(node.slice)
+        hname = dotted(holder)
+        n += 1
+        construct = f"{TIKZ}:_tikz_draw_branches/anchor-lookup#{n}[{short(node, 50)}]"
+        gs = guards(fn, node)
+        none_here = any(_none_cmp_simple(g, key) is not None and _none_cmp_simple(g, key) == pol for g, pol in gs)
+        if hname in side_of_param:
+            k = side_of_param[hname]
+            if gene_side.get(key) != k:
+                res.fail(construct, f"the layout of child species {k} is indexed with `{key}`, which is {'the gene of side ' + str(gene_side[key]) if key in gene_side else 'not the gene stored on that side'} of the branch: the anchor lives in the other child species (KeyError, or a line to the wrong lineage)", mod, node)
+            elif none_here:
+                res.fail(construct, f"`{key}` is None on this path (the lineage on that side was lost)", mod, node)
+            else:
+                res.ok(construct, f"child {k} layout indexed with the gene of side {k}")
+            continue
+        # a local bound to <all layouts>[<mapping>[g]]
+        if isinstance(holder, ast.Name):
+            defs = [a for a in walk_no_nested(fn) if isinstance(a, ast.Assign) and any(isinstance(t, ast.Name) and t.id == holder.id for t in a.targets)]
+            if len(defs) == 1 and isinstance(defs[0].value, ast.Subscript):
+                inner = defs[0].value.slice
+                if isinstance(inner, ast.Subscript) and dotted(inner.value) in mapping_params:
+                    home = dotted(inner.slice)
+                    if home == key:
+                        res.ok(construct, f"`{key}` looked up in the layout of the species it is mapped to")
+                    else:
+                        res.fail(construct, f"the anchor of `{key}` is looked up in the layout of the species of `{home}`", mod, node)
+                    continue
+        # own layout: needs a dominating membership test
+        member = any(pol and isinstance(g, ast.Compare) and isinstance(g.ops[0], ast.In) and dotted(g.left) == key and ast.unparse(g.comparators[0]) == ast.unparse(node.value) for g, pol in gs)
+        if member:
+            res.ok(construct, "guarded by a membership test")
+        else:
+            res.fail(construct, f"`{short(node)}` is read without knowing that the anchor exists", mod, node)
+    if n < 4:
+        raise AnalysisError(f"DRAW-ANCHOR-SIDES: only {n} anchor lookups found")
+    return res
+
+
+def _none_cmp_simple(test: ast.AST, name: Optional[str]) -> Optional[bool]:
+    """True when `test` is `<name> is None`, False when `<name> is not None`."""
+    if name and isinstance(test, ast.Compare) and len(test.ops) == 1 and isinstance(test.comparators[0], ast.Constant) and test.comparators[0].value is None and dotted(test.left) == name:
+        if isinstance(test.ops[0], (ast.Is, ast.Eq)):
+            return True
+        if isinstance(test.ops[0], (ast.IsNot, ast.NotEq)):
+            return False
+    return None
+
+
+RULES["DRAW-ANCHOR-SIDES"] = draw_anchor_sides
